@@ -1,5 +1,6 @@
 """C13 — redirection is transparent to the calling convention."""
 import core
+from props import _sim
 
 RULE = ("probe configurations: a synthetic target near the binary (short trampoline form, rel32), > 2 GiB away and at a low address (long "
         "form, mov rax/jmp rax), faked by an assembly fake; per configuration N random register files (boundary-biased values): the "
@@ -9,7 +10,11 @@ RULE = ("probe configurations: a synthetic target near the binary (short trampol
         "of the stack and the callee-saved set are equal on entry; return registers, callee-saved set, rsp, DF and canaries equal after "
         "return; rax/r10/r11 at entry are scratch by the ABI and not judged. Rust-level shapes near (Rust targets) and far (synthetic "
         "targets): 19 mixed arguments incl. 9 floats, by-value struct and &mut; 128-byte struct by value and by hidden return slot; u128; "
-        "(f64,f64); (u64,u64). distinct = (configuration kind, repetition parity)")
+        "(f64,f64); (u64,u64). Where the CPU has AVX the probe also carries bits 128-255 of ymm0-7 (arguments) and ymm0:ymm1 (returns). "
+        "AArch64 / ARM part (no such CPU here): the unmodified emitters are run in the sim engine (Linux and macOS variants) and an "
+        "independent interpreter lists every register written between the entry and the fake's first instruction: only x9-x17 "
+        "(AArch64) resp. r12 (ARM/Thumb) may be written - not x0-x7/r0-r3, x8, the callee-saved set, lr or sp; every instruction word "
+        "judged is cross-checked with llvm-mc. distinct = (configuration kind, repetition parity) + (variant, profile, part)")
 
 
 def run(tier, seed):
@@ -22,7 +27,8 @@ def run(tier, seed):
     obs = core.sum_dicts(sums)
     r.observe("native", obs)
     r.void_if_unobserved(obs.get("register_files_and_shape_calls", 0) > 0, "no probed call was made")
-    r.assumptions = ["x86-64 System V; the AArch64/ARM scratch-register clauses are judged in the sim engine (C15/C16)",
+    _sim.run_sim(r, "c13sim", seed, tier, ["linux", "macos"], ["dev"] if tier == "quick" else ["dev", "release"], nshards=5)
+    r.assumptions = ["x86-64 System V is judged by execution; the AArch64/ARM clauses are judged on the emitted bytes by an interpreter (no such hardware here), which covers register writes on the way to the fake, not the stack",
                      "the probe is validated on the un-faked target before every configuration (self-check failure = inconclusive)"]
     return r.finish({"scenario": "c13", "n": per})
 
@@ -30,6 +36,13 @@ def run(tier, seed):
 def replay(path):
     import subprocess
     rp = core.load_replay(path)
+    if str(rp.get('engine', '')).startswith('sim'):
+        import simgen
+        eng = rp['engine'].split('/')
+        exe, _ = simgen.build(eng[1], eng[2])
+        p = subprocess.run([exe, 'c13sim', '--seed', str(rp['seed']), '--tier', rp['tier'], '--only', str(rp['case_index'])], stdout=subprocess.PIPE, text=True)
+        print(p.stdout[-2500:])
+        return 1 if ('"verdict":"violated"' in p.stdout or p.returncode != 0) else 0
     exe = core.build_native()
     p = subprocess.run([exe, "c13", "--seed", str(rp["seed"]), "--tier", rp["tier"], "--only", str(rp["case_index"]), "--n", str(rp.get("args", {}).get("n", 40000))], stdout=subprocess.PIPE, text=True)
     print(p.stdout[-2000:])
